@@ -76,7 +76,8 @@ def run_kani_group(pid, spec, tier, scratch):
             if not failed:
                 o.update(status="inconclusive", detail="harness status %s without failed checks (timeout/OOM/solver error): %s"
                          % (r["status"], json.dumps(r.get("error"))[:300]))
-            elif all("unwinding assertion" in d for d in descs):
+            elif [c for c in failed if c.get("status") == "Failure"] and all(
+                    "unwinding assertion" in (c.get("description") or "") for c in failed if c.get("status") == "Failure"):
                 o.update(status="inconclusive", detail="unwinding assertion failed: bound too small")
             elif not any(c.get("status") == "Failure" for c in failed):
                 o.update(status="inconclusive", detail="checks left undecided by the solver (status %s; timeout/OOM?): %s"
